@@ -268,6 +268,13 @@ def seq_strategy(depth):
         st.builds(lambda l: ["items", [[v, ["int", k]] for k, v in
                                        enumerate(dict.fromkeys(l))]], words),
         st.builds(lambda l: ["str", "".join(l)], words),
+        # sets iterate in an order of their own (for small integers: by
+        # hash value modulo the table size - 8 comes before 1): the items
+        # are bound in THAT order
+        st.builds(lambda k, l: [k, [["int", v] for v in l]],
+                  st.sampled_from(["set", "frozenset"]),
+                  st.lists(st.sampled_from([8, 1, 16, 3, 24, 2, 0, 9]),
+                           max_size=4, unique=True)),
         st.just(["none"]),
         # a mapping itself whose keys are pairs: iterating it gives the keys
         st.builds(lambda l: ["dict", [[k, ["int", n]] for n, k in
